@@ -73,8 +73,14 @@ def main():
             s = s.replace(m['find'], m['replace'])
             open(path, 'w').write(s)
             rc, out = run_check(m['property'], td)
-            ok = rc == 1 and m['expect'] in out
-            print('%-8s %-44s %s' % (m['property'], m['id'], 'caught' if ok else 'MISSED (exit %d)' % rc))
+            if m.get('neutral'):
+                # behaviour-preserving rewrite: the check must stay silent (no false alarm, no exit 2)
+                ok = rc == 0
+                print('%-8s %-44s %s' % (m['property'], m['id'], 'silent (neutral)' if ok else
+                                         'FALSE ALARM (exit %d)' % rc))
+            else:
+                ok = rc == 1 and m['expect'] in out
+                print('%-8s %-44s %s' % (m['property'], m['id'], 'caught' if ok else 'MISSED (exit %d)' % rc))
             if a.v or not ok:
                 print('\n'.join('      ' + l for l in out.splitlines() if 'VIOLATION' not in l)[-3000:])
             if not ok:
